@@ -517,7 +517,18 @@ impl<'s> Runner<'s> {
         }
         let arena = Arena {
             progs,
-            packets: sc.packets.clone(),
+            // every packet buffer is followed by as much spare capacity as it is long (and a page):
+            // on a broken tree a program that stores through "the packet pointer" may have been handed
+            // the end pointer instead - its store then lands in the spare room, not in the worker's heap
+            packets: sc
+                .packets
+                .iter()
+                .map(|p| {
+                    let mut v = Vec::with_capacity(p.len() * 2 + 4096);
+                    v.extend_from_slice(p);
+                    v
+                })
+                .collect(),
             mbuffs: if sc.mbuffs.is_empty() { vec![Vec::new()] } else { sc.mbuffs.clone() },
             empty_anchor: vec![0u8; 8],
             polluter: {
